@@ -94,6 +94,9 @@ func c06QuerySeq(l2 *henv.L2, next uint64) error {
 	return nil
 }
 
+// c06LongDenom: the longest denom the L1 bank accepts (128 characters)
+var c06LongDenom = "d" + strings.Repeat("x", 127)
+
 func TestC06Rapid(t *testing.T) {
 	rec := evid.For("C06")
 	runRapid(t, 600, 30000, func(rt *rapid.T) {
@@ -125,7 +128,11 @@ func TestC06Rapid(t *testing.T) {
 			}
 			amt := int64(rapid.IntRange(0, 5000).Draw(rt, "amt"))
 			from := tc.users[rapid.IntRange(0, len(tc.users)-1).Draw(rt, "from")]
-			denom := rapid.SampledFrom([]string{"uinit", "uusdc"}).Draw(rt, "denom")
+			denom := rapid.SampledFrom([]string{"uinit", "uusdc", "uinit", "uusdc", c06LongDenom}).Draw(rt, "denom")
+			if denom == c06LongDenom {
+				tc.l1.Fund(from.Addr, coinOf(denom, 1_000_000))
+				c.Class("deposit-of-a-token-with-a-128-character-denom")
+			}
 			var data []byte
 			if rapid.IntRange(0, 4).Draw(rt, "reentrant") == 0 {
 				// a racing executor: the deposit's hook is a transaction, signed by an authorised executor, that
